@@ -188,8 +188,11 @@ fn observe(ctx: &Ctx, o: &Opts) -> Obs {
     // a longer file from an earlier run is in the way
     sb.write("run1/o.torrent", &b"d7:comment5:stale4:infod6:lengthi0eee".repeat(200));
   }
+  // the creation date is an instant, not a wall-clock reading: the local time zone must not matter
+  // (zone names need the system's tz database, POSIX strings do not)
+  let tz = ["UTC", "Asia/Tokyo", "America/New_York", "JST-9", "EST5", "<+14>-14", "<-11>11"][(o.p as usize + o.files.len() + o.tiers.len()) % 7];
   let t0 = now();
-  let out = Cmd::args_owned(&ctx.imdl, o.args("in", if o.stdout { "-" } else { "o.torrent" })).cwd(&sb.path("run1")).run();
+  let out = Cmd::args_owned(&ctx.imdl, o.args("in", if o.stdout { "-" } else { "o.torrent" })).cwd(&sb.path("run1")).env("TZ", tz).run();
   let t1 = now();
   let bytes = if o.stdout { out.stdout.clone() } else { std::fs::read(sb.path("run1/o.torrent")).unwrap_or_default() };
   let mut rerun = None;
